@@ -110,6 +110,9 @@ pub struct Sim {
     had_crash: bool,
     /// a store returned an error since the last restart (what it left behind may surface there)
     failed_store_since_restart: bool,
+    /// the event whose store failed last with an injected or environmental error (a retry of it
+    /// must behave like the store of an event that never failed)
+    last_faulted_store: Option<B32>,
     /// probes on which this run already deviated in a way that only speaks for OTHER properties
     /// than the one under check: they are not looked at again (the run goes on)
     masked: BTreeSet<String>,
@@ -165,6 +168,7 @@ impl Sim {
             had_restart: false,
             had_crash: false,
             failed_store_since_restart: false,
+            last_faulted_store: None,
             masked: BTreeSet::new(),
             other_finding: None,
             sig_acc: 0xcbf2_9ce4_8422_2325,
@@ -702,6 +706,11 @@ impl Sim {
         let diffs = self.unmasked(obs::all_diffs(&exp, &real));
         if !diffs.is_empty() {
             let (b, clause, mut props) = self.attribute_all(&diffs, ctx);
+            if ctx.kind == CtxKind::Store && ctx.event.as_ref().map(|e| Some(e.id) == self.last_faulted_store).unwrap_or(false) && !props.contains(&"C12") {
+                // the same event failed to be stored a moment ago (injected or environmental
+                // error) and its retry now deviates: the failed call left something behind
+                props.push("C12");
+            }
             if self.cfg.mode == Mode::Crash && !props.contains(&"C13") {
                 // in crash runs every completed call is also what a reopen must reflect
                 props.push("C13");
@@ -1009,6 +1018,7 @@ impl Sim {
                     self.last_obs = Some(after);
                     self.disturb("failpoint");
                     self.failed_store_since_restart = true;
+                    self.last_faulted_store = Some(e.id);
                     return None;
                 }
                 return self.after_store(i, e, &ev, out, map_len_before, points, vec![]);
@@ -1070,6 +1080,7 @@ impl Sim {
                     self.last_obs = Some(after);
                     self.disturb("failpoint");
                     self.failed_store_since_restart = true;
+                    self.last_faulted_store = Some(e.id);
                     if abandon && !enumerate {
                         self.stats.inc("fault/failed_store_not_retried");
                         return None;
@@ -1127,6 +1138,7 @@ impl Sim {
                 }
                 self.last_obs = Some(after);
                 self.disturb("failpoint");
+                self.last_faulted_store = Some(e.id);
                 return None;
             }
             return self.after_store(i, e, &ev, out, map_len_before, points, vec![]);
